@@ -17,7 +17,7 @@ from harness.gen import a03 as G
 
 DRIVERS = ["drv_c04"]
 RULE = ("one case = one generated stored definition (1-3 top-level classes, nesting depth <= 3) rendered to text with "
-        "layout noise; streams: main / dup / redecl / quirk / imp3 (open finding C04-F4); "
+        "layout noise; streams: main / dup / redecl / quirk; "
         "non-trivial = at least one component clause with >= 2 declarators, or >= 2 element sections, or a nested "
         "class, in some class; distinct = distinct source description")
 TRUSTED = ["ANTLR: the parse tree of the rendered text has the shape of the description it was rendered from, and the "
@@ -29,7 +29,6 @@ ASSUMPTIONS = ["expressions, equations, statements and modification arguments ar
                "no `within`, no enumeration / der / `extends`-form class specifiers, no external functions, no "
                "constrainedby, no string-comment concatenation, no annotation inside equations/statements, no component "
                "redeclaration inside a *component* modification (the listener crashes there: AttributeError, see report)",
-               "outside the stream imp3, import lists `{a, b}` have at most two names (longer lists are mis-split by the listener: open finding C04-F4)",
                "object identity of `type`/`dimensions`/`prefixes` is compared at top level only (the inner subscript list of "
                "clause-level dimensions is shared between declarators by the shallow `list()` copy; nothing in pymoca mutates it)"]
 
@@ -666,7 +665,7 @@ def import_clash(f):
     return False
 
 
-STREAMS = [("main", 0.70), ("dup", 0.10), ("redecl", 0.09), ("quirk", 0.06), ("imp3", 0.05)]
+STREAMS = [("main", 0.74), ("dup", 0.10), ("redecl", 0.09), ("quirk", 0.07)]
 
 
 def make_case(rng):
